@@ -21,10 +21,24 @@ import common
 
 PID = "C01"
 
-HEADS = {"const": "for (const v of it)", "let": "for (let v of it)", "destructure": "for (const [v] of wrap(it))", "for-in-like": None}
+HEADS = {"const": "for (const v of it)", "let": "for (let v of it)", "destructure": "for (const [v] of wrap(it))", "for-in": "for (const k in obj)"}
+
+
+def program_in(m, brks, conts, nested):
+    """for-in over an object whose keys k10, k11, .. stand for the values; closures capture the key."""
+    src = ("const obj = {%s}; const B = [%s], C = [%s]; const fs = []; let x = 'outer';\n"
+           % (", ".join("k%d: 1" % (10 + i) for i in range(m)), ", ".join(map(str, brks)), ", ".join(map(str, conts))))
+    body = "const v = Number(k.slice(1)); fs.push(() => k); if (B.includes(v)) break; if (C.includes(v)) continue; const x = v;"
+    if nested:
+        body = "const v = Number(k.slice(1)); fs.push(() => k); { const y = v; if (B.includes(y)) break; { if (C.includes(y)) continue; } } const x = v;"
+    src += "for (const k in obj) { %s }\n" % body
+    src += "fs.map(f => Number(f().slice(1))).join() + '/F/' + (x === 'outer' ? 'T' : 'F')"
+    return src
 
 
 def program(head, m, brks, conts, nested):
+    if head == "for-in":
+        return program_in(m, brks, conts, nested)
     vals = ", ".join(str(10 + i) for i in range(m))
     src = ("let n = 0, c = 0; const vals = [%s];\n"
            "const it = {[Symbol.iterator]() { let i = 0; return {next() { n++; return i < vals.length ? {value: vals[i++], done: false} "
@@ -112,6 +126,54 @@ def skeleton(ops):
     return p, out, issues
 
 
+def skeleton_in(ops):
+    g = [j for j, o in enumerate(ops) if o.startswith("GetKeysIterator")]
+    if not g:
+        return None, ["no GetKeysIterator"], []
+    p = g[-1] + 1
+    m = re.match(r"IteratorDone \{ result: (\d+), target: (\d+) \}", ops[p + 1]) if p + 1 < len(ops) else None
+    if not m:
+        return p, ["no IteratorDone behind IteratorNext"], []
+    end = int(m.group(2))
+    decl = p + 4                       # next, done, value, PushScope, DeclareVar
+    body_end = end - 2                 # PopScope; Jump
+    blen = body_end - (decl + 1)
+    issues = []
+
+    def back(t):
+        return t if t <= decl else t - (blen - 1)
+    out = []
+    names = {"IteratorNext": "next", "IteratorValue": "value", "PushScope": "pushscope", "DeclareVar": "declare", "PopScope": "popscope"}
+    for j in list(range(p, decl + 1)) + ["body"] + list(range(body_end, end)):
+        if j == "body":
+            out.append("body")
+            continue
+        o = ops[j]
+        name = o.split(" ")[0]
+        kv = dict(a.split(": ") for a in o[o.index("{") + 2:-2].split(", ")) if "{" in o else {}
+        if name == "IteratorDone":
+            out.append("id%d" % back(int(kv["target"])))
+        elif name == "Jump":
+            out.append("j%d" % back(int(kv["target"])))
+        elif name in names:
+            out.append(names[name])
+        else:
+            out.append("?" + o)
+    depth = 0
+    for j in range(decl + 1, body_end):
+        o = ops[j]
+        if o == "PushScope":
+            depth += 1
+        elif o == "PopScope":
+            depth -= 1
+        elif o.startswith("Break") or o.startswith("Continue"):
+            kv = dict(a.split(": ") for a in o[o.index("{") + 2:-2].split(", "))
+            want = end if o.startswith("Break") else p
+            if int(kv["target"]) != want or int(kv["scopes"]) != depth + 1:
+                issues.append("%s at %d (target %d, body depth %d)" % (o, j, want, depth))
+    return p, out, issues
+
+
 def node_values(srcs, tag):
     d = os.path.join(common.OUT, PID)
     os.makedirs(d, exist_ok=True)
@@ -137,14 +199,14 @@ def cases(chk):
         subsets = [[]] + [[v] for v in vals] + ([[vals[0], vals[-1]]] if m > 1 else [])
         for brks in subsets:
             for conts in subsets:
-                for head in ("const", "let", "destructure"):
+                for head in ("const", "let", "destructure", "for-in"):
                     out.append((head, m, brks, conts, (len(out) % 3 == 0)))
     for _ in range(20 if chk.tier == "quick" else 400):
         m = 5 + rng.below(40)
         vals = [10 + i for i in range(m)]
         brks = [rng.choice(vals)] if rng.chance(1, 2) else []
         conts = [v for v in vals if rng.chance(1, 3)]
-        out.append((rng.choice(["const", "let", "destructure"]), m, brks, conts, rng.chance(1, 2)))
+        out.append((rng.choice(["const", "let", "destructure", "for-in"]), m, brks, conts, rng.chance(1, 2)))
     return out
 
 
@@ -161,11 +223,12 @@ def run(chk, th, stats):
     skels = []
     for i in range(len(cs)):
         c = cres.get("f%d" % i, {})
-        skels.append(skeleton(c.get("ops") or []) if c.get("status") == "ok" else (0, ["status:%s" % c.get("status")], []))
+        sk = skeleton_in if cs[i][0] == "for-in" else skeleton
+        skels.append(sk(c.get("ops") or []) if c.get("status") == "ok" else (0, ["status:%s" % c.get("status")], []))
     rows = []
     for (head, m, brks, conts, nested), (p, _, _) in zip(cs, skels):
         z = lambda l: "[%s]%%Z" % ";".join(str(x) for x in l)
-        rows.append("forof_case %d %s %s %s" % (p or 0, z([10 + i for i in range(m)]), z(brks), z(conts)))
+        rows.append("%s %d %s %s %s" % ("forin_case" if head == "for-in" else "forof_case", p or 0, z([10 + i for i in range(m)]), z(brks), z(conts)))
     jobs, model = [], []
     shard = 300
     for k in range(0, len(rows), shard):
